@@ -734,6 +734,9 @@ pub fn check(sc: &Scenario, ex: &Exec, a: &Analysis) -> Vec<Violation> {
         if a.dispatched.len() > 1 {
             v.push(viol(P, "c", "oversized-head-dispatched", "a request with an oversized head reached the application".into()));
         }
+        if finals.len() > 2 {
+            v.push(viol(P, "c", "response-after-rejection:oversized-head", format!("{} responses were written after the response that rejects the oversized head", finals.len() - 2)));
+        }
         if ex.done.is_none() {
             v.push(viol(P, "c", "connection-not-closed-after-rejection:oversized-head", "connection still open after an oversized head".into()));
         }
